@@ -258,7 +258,13 @@ def run_case(case):
                     # classify by mechanism: is the library optimal under its own bound w_max = k*max weight on every product multiplicity*weight?
                     from fpverif.props.c08 import classify_mechanism
                     mech = classify_mechanism(lambda cc, pc: ref.lae_min(cc, demand, k, models.WT[wt], sc, prod_cap=pc), cols, m, mode, rec_obj,
-                                              cols_fn=lambda B_: columns_cyc(G, mode, case["starts"], case["ends"], B_)) or tagstr
+                                              cols_fn=lambda B_: columns_cyc(G, mode, case["starts"], case["ends"], B_))
+                    if mech is None:
+                        # neither of the library's own caps explains it: does HiGHS reach the witness value once its presolve is off?
+                        r2 = models.run({"cls": cls, "spec": case["spec"], "kw": build_kw(case, k)}, solver_options=dict(SO, presolve="off"))
+                        if r2.get("solved") and isinstance(r2.get("obj"), (int, float)) and r2["obj"] <= float(wit) + 1e-6 * max(1, abs(float(wit))):
+                            mech = "/solver-presolve-loses-the-optimum"
+                    mech = mech or tagstr
                     viol.append({"sig": f"C07/{cls}/worse-than-witness{mech}", "msg": f"recomputed objective {rec_obj} but a solution with multiplicities <= {B} achieves {wit}; {desc}"})
                 # monotone in k
                 r3 = run_one(cls, case, k + 1, viol, obs, desc, tagstr)
